@@ -94,7 +94,7 @@ def tensordot_units(tier, syms=None):
     ]
     if not th:
         shapes = [(2, 2, (1,), (0,)), (2, 2, (0, 1), (1, 0)), (3, 2, (0,), (1,)), (2, 3, (1,), (1,)), (1, 1, (), ()),
-                  (3, 1, (1,), (0,)), (2, 1, (1,), (0,))]
+                  (3, 1, (1,), (0,)), (2, 1, (1,), (0,)), (2, 2, (), ())]   # the last: >= 2 blocks of each operand in one contracted sector
     if th:
         shapes += [(3, 3, (2,), (0,)), (4, 2, (1, 3), (1, 0)), (3, 3, (0, 1, 2), (2, 1, 0)), (2, 2, (), ())]
     for sym in syms:
